@@ -139,8 +139,18 @@ func Run(ctx *Ctx, sc *Scn) (evs []trace.Ev, note string) {
 	cv := termcmd.NewConv(ctx.G, ctx.L, caps.UnicodeCore, caps.ExplicitWidth)
 	rgbcap := vx.CanRGB()
 	sucap := caps.Smulx || caps.VTE
-	evs = append(evs, trace.Ev{"ev": "reset", "rows": sc.Rows, "cols": sc.Cols, "xw": caps.ExplicitWidth})
+	adv := []string{}
+	for i, n := range responder.Names {
+		if sc.Mask&(1<<i) != 0 {
+			adv = append(adv, n)
+		}
+	}
+	evs = append(evs, trace.Ev{"ev": "reset", "rows": sc.Rows, "cols": sc.Cols, "xw": caps.ExplicitWidth, "adv": adv})
 	evs = append(evs, cv.Feed(s.Startup)...)
+	evs = append(evs, trace.Ev{"ev": "ready", "can": map[string]bool{
+		"rgb": vx.CanRGB(), "kittyGraphics": vx.CanKittyGraphics(), "sixel": vx.CanSixel(), "color": vx.CanReportColor(),
+		"fg": vx.CanReportForegroundColor(), "bg": vx.CanReportBackgroundColor(), "graphics": vx.CanDisplayGraphics(),
+		"appid": vx.CanSetAppID(), "unicodeCore": vx.CanUnicodeCore(), "explicitWidth": vx.CanExplicitWidth()}})
 	ctx.dump("startup caps=%+v out=%q\n", caps, stripNUL(s.Startup))
 	cols, rows := sc.Cols, sc.Rows
 	want := newWant(cols, rows)
@@ -232,6 +242,7 @@ func Run(ctx *Ctx, sc *Scn) (evs []trace.Ev, note string) {
 		evs = append(evs, trace.Ev{"ev": "frame", "app": app, "cur": cr, "rgb": rgbcap, "su": sucap})
 	}
 	vx.Close()
+	evs = append(evs, cv.Feed(s.Con.Take())...)
 	return evs, ""
 }
 
